@@ -5,6 +5,7 @@ CalculateAttributePaths, UpdateAttributesEffectiveChoice, MergeAttributes) is mo
 proved sound for content models without repeated element names; the rest of the pipeline
 is exercised end to end (real pipeline + stand-in renderer) by the oracle."""
 import dataclasses
+import os
 import json
 import random
 
@@ -49,7 +50,7 @@ def particles(rng, n, dup_share=0.5):
 
 # ------------------------------------------------------------------ cores
 def gen_sites(rng, tier):
-    for p in particles(rng, n_cases(tier, 400, 6000)):
+    for p in particles(rng, n_cases(tier, 300, 6000)):
         yield {"particle": p}
 
 
@@ -68,7 +69,7 @@ def canon_sites(o):
 
 def stage_gen(stage):
     def gen(rng, tier):
-        for p in particles(rng, n_cases(tier, 300, 4000), dup_share=0.7):
+        for p in particles(rng, n_cases(tier, 200, 4000), dup_share=0.7):
             try:
                 sites = G.real_xsd_sites(G.particle_xsd(p))
             except Exception:  # noqa: BLE001
@@ -99,7 +100,7 @@ def stage_impl(stage):
 
 
 def gen_occurs(rng, tier):
-    for p in particles(rng, n_cases(tier, 300, 4000), dup_share=0.7):
+    for p in particles(rng, n_cases(tier, 200, 4000), dup_share=0.7):
         try:
             yield {"sites": G.real_xsd_sites(G.particle_xsd(p))}
         except Exception:  # noqa: BLE001
@@ -220,7 +221,7 @@ def gschemas(rng, n):
 
 
 def gen_gsites(rng, tier):
-    for sch in gschemas(rng, n_cases(tier, 300, 3000)):
+    for sch in gschemas(rng, n_cases(tier, 200, 3000)):
         yield sch
 
 
@@ -241,7 +242,7 @@ def canon_gsites(o):
 
 def gen_gcalc(rng, tier):
     """the classes of a schema after the real UNGROUP step, as the input of one CalculateAttributePaths handler"""
-    for sch in gschemas(rng, n_cases(tier, 300, 3000)):
+    for sch in gschemas(rng, n_cases(tier, 200, 3000)):
         try:
             yield {"classes": G.renumber_classes(G.real_schema_classes(G.gschema_xsd(sch)))}
         except Exception:  # noqa: BLE001
@@ -330,8 +331,8 @@ def gen_attr_sanitize(rng, tier):
                             if xt and not ia:
                                 continue
                             out.append({"is_attribute": ia, "min": mn, "max": mx, "default": d, "fixed": fx and d is not None, "any_obj": ao, "xsi_type": xt})
-    for i in range(0, len(out), 16):
-        yield {"attrs": out[i:i + 16]}
+    for i in range(0, len(out), 4):
+        yield {"attrs": out[i:i + 4]}
     for _ in range(n_cases(tier, 50, 3000)):
         yield {"attrs": [rng.choice(out) for _ in range(8)]}
 
@@ -345,7 +346,7 @@ def impl_attr_sanitize(a):
 
 def gen_attr_fields(rng, tier):
     for i, a in enumerate(gen_attr_decls(rng, tier)):
-        if i >= n_cases(tier, 10**6, 600):
+        if i >= n_cases(tier, 110, 400):
             break
         yield a
 
@@ -383,7 +384,7 @@ def impl_override(a):
 
 def gen_restrict(rng, tier):
     """base: 1..5 elements; own: a subsequence of the base names re-declared with any bounds, sometimes a new name"""
-    for _ in range(n_cases(tier, 250, 3000)):
+    for _ in range(n_cases(tier, 200, 3000)):
         names = rng.sample(list("abcdefg"), rng.randint(1, 5))
         base = [G.gen_oattr(rng, n) for n in names]
         own = [G.gen_oattr(rng, n) for n in names if rng.random() < 0.6]
@@ -401,7 +402,7 @@ def impl_restrict_attrs(a):
 
 def gen_restrict_fields(rng, tier):
     for i, a in enumerate(gen_restrict(rng, tier)):
-        if i >= n_cases(tier, 10**6, 700):
+        if i >= n_cases(tier, 150, 700):
             break
         # the mapper reads `default`+`fixed` from one declaration: keep what a schema can say; no maxOccurs=0 in the base
         ok_ = all(o["max"] > 0 for o in a["base"]) and all(not (o["max"] == 0 and o["default"] is not None) for o in a["own"])
@@ -439,7 +440,7 @@ def canon_restrict_fields(o):
 
 
 def gen_ext(rng, tier):
-    for _ in range(n_cases(tier, 80, 500)):
+    for _ in range(n_cases(tier, 60, 500)):
         pa = G.gen_particle(rng, distinct=["a", "b", "c", "d"])
         pb = G.gen_particle(rng, distinct=["e", "f", "g", "h"])
         if pa is None or pb is None or "elem" in pa or "elem" in pb:
@@ -483,7 +484,7 @@ def gen_subst_case(rng):
 
 
 def gen_subst_sites(rng, tier):
-    for _ in range(n_cases(tier, 250, 2500)):
+    for _ in range(n_cases(tier, 200, 2500)):
         a = gen_subst_case(rng)
         if a is None:
             continue
@@ -508,7 +509,7 @@ def canon_by_name(o):
 
 
 def gen_subst_fields(rng, tier):
-    for _ in range(n_cases(tier, 70, 500)):
+    for _ in range(n_cases(tier, 50, 500)):
         a = gen_subst_case(rng)
         if a is not None:
             yield a
@@ -524,43 +525,256 @@ def impl_subst_fields(a):
         g.close()
 
 
+# ------------------------------------------------------------------ namespaces and forms (Gen/Ns.lean)
+def gen_ns(rng, tier):
+    # bounded-exhaustive: one declaration of every shape under every form default, target namespace bound as default / prefix / not at all
+    forms = [None, "qualified", "unqualified"]
+    for tns, default, prefixes in (("urn:t", "urn:t", {}), ("urn:t", None, {"t": "urn:t"}), ("urn:t", None, {}), (None, None, {}),
+                                   ("urn:t", "urn:o", {"t": "urn:t", "o": "urn:o"}), ("urn:t", "urn:o", {"o": "urn:o"}),
+                                   ("urn:t", None, {"cham": "1"}), ("urn:t", "urn:o", {"cham": "1", "o": "urn:o"})):
+        chameleon = prefixes.pop("cham", None) is not None if "cham" in prefixes else False
+        for ef in forms:
+            for af in forms:
+                ctx = {"tns": tns, "chameleon": chameleon, "default": default, "prefixes": dict(prefixes), "eform": ef, "aform": af}
+                decls = []
+                for attr in (False, True):
+                    for i, f in enumerate(forms):
+                        decls.append({"attr": attr, "kind": "local", "name": "abc"[i], "form": f, "tnsattr": None})
+                    if tns and (default == tns or "t" in prefixes or (chameleon and not default)):
+                        decls.append({"attr": attr, "kind": "ref", "prefix": None if (default == tns or chameleon) else "t", "name": "ha" if attr else "h"})
+                    if "o" in prefixes:
+                        decls.append({"attr": attr, "kind": "ref", "prefix": "o", "name": "ga" if attr else "g"})
+                yield {"ctx": ctx, "decls": decls}
+    for _ in range(n_cases(tier, 200, 3000)):
+        ctx = G.gen_ns_ctx(rng)
+        decls = G.gen_ns_decls(rng, ctx)
+        if decls:
+            yield {"ctx": ctx, "decls": decls}
+
+
+def classify_ns(a, out):
+    c = a["ctx"]
+    k = "chameleon" if c.get("chameleon") else ("no-tns" if not c["tns"] else ("tns-default" if c["default"] == c["tns"] else ("other-default" if c["default"] else ("tns-prefixed" if "t" in c["prefixes"] else "tns-unbound"))))
+    refs = sum(1 for d in a["decls"] if d["kind"] == "ref")
+    un = sum(1 for d in a["decls"] if d["kind"] == "ref" and d["prefix"] is None)
+    return f"{k}/refs={min(refs, 2)}/unprefixed={min(un, 1)}" + ("/err" if isinstance(out, dict) and "err" in out else "")
+
+
+def impl_ns_attrs(a):
+    try:
+        return ok(G.real_ns_attrs(a["ctx"], a["decls"]))
+    except Exception as e:  # noqa: BLE001
+        return err("HARNESS:" + type(e).__name__)
+
+
+def gen_ns_meta(rng, tier):
+    vals = [None, "", "urn:t", "urn:o"]
+    cases = [{"parent": p, "attr": x, "is_attr": ia} for p in vals for x in vals for ia in (False, True)]
+    for i in range(0, len(cases), 8):
+        yield {"cases": cases[i:i + 8]}
+
+
+def impl_ns_meta(a):
+    try:
+        return ok(G.real_ns_meta(a["cases"]))
+    except Exception as e:  # noqa: BLE001
+        return err("LEAK:" + type(e).__name__)
+
+
+def gen_ns_fields(rng, tier):
+    for i, a in enumerate(gen_ns(rng, tier)):
+        if i >= n_cases(tier, 80, 600):
+            break
+        yield a
+
+
+def impl_ns_fields(a):
+    try:
+        return ok(G.real_ns_fields(a["ctx"], a["decls"]))
+    except Exception as e:  # noqa: BLE001
+        return err("GEN:" + type(e).__name__)
+
+
+# ------------------------------------------------------------------ input distributions (evidence: coverage.distribution)
+def _depth(p):
+    if "elem" in p:
+        return 0
+    return 1 + max((_depth(k) for k in (p.get("seq") or p.get("choice"))[2]), default=0)
+
+
+def _occ_class(mn, mx):
+    return ("opt" if mn == 0 else "req" if mn == 1 else "min2+") + ("-once" if mx == 1 else "-unb" if mx == MAXSIZE else "-max0" if mx == 0 else "-bounded")
+
+
+def classify_particle(a, out):
+    p = a["particle"]
+    names = G.particle_names(p)
+    kinds = set()
+
+    def walk(q):
+        if "elem" in q:
+            return
+        k = "seq" if "seq" in q else "choice"
+        mn, mx, kids = q[k]
+        kinds.add(k + ("*" if mx > 1 else ""))
+        for c in kids:
+            walk(c)
+
+    walk(p)
+    return f"depth={_depth(p)}/{'dup' if len(set(names)) != len(names) else 'distinct'}/{'+'.join(sorted(kinds))}" + ("/err" if isinstance(out, dict) and "err" in out else "")
+
+
+def classify_sites(a, out):
+    ss = a["sites"]
+    names = [s["name"] for s in ss]
+    dup = len(set(names)) != len(names)
+    ch = sum(1 for s in ss if s.get("choice"))
+    eff = any((s.get("choice") or 0) < 0 for s in ss)
+    deep = max((len(s["path"]) for s in ss), default=0)
+    return f"n={min(len(ss), 6)}/{'dup' if dup else 'distinct'}/choice={'some' if ch else 'none'}{'+effective' if eff else ''}/pathlen={min(deep, 4)}" + ("/err" if isinstance(out, dict) and "err" in out else "")
+
+
+def classify_gschema(a, out):
+    js = json.dumps(a)
+    nested = '"ref"' in json.dumps(a["defs"])
+    names = [n for t in a["types"] for n in G.gparticle_names(a, t)]
+    per_type_dup = any(len(set(G.gparticle_names(a, t))) != len(G.gparticle_names(a, t)) for t in a["types"])
+    return f"defs={len(a['defs'])}/{'nested' if nested else 'flat'}/{'all' if chr(34) + 'all' + chr(34) in js else 'noall'}/{'dup' if per_type_dup else 'distinct'}" + ("/err" if isinstance(out, dict) and "err" in out else "")
+
+
+def classify_gclasses(a, out):
+    shared = set()
+    seen = {}
+    for i, cls in enumerate(a["classes"]):
+        for s_ in cls:
+            for e in s_["path"]:
+                if e[1] in seen and seen[e[1]] != i:
+                    shared.add(e[1])
+                seen.setdefault(e[1], i)
+    return f"classes={len(a['classes'])}/shared-ids={'yes' if shared else 'no'}"
+
+
+def classify_decls(a, out):
+    """the rarest-looking declaration of the case: kind, use / occurrence class, default, fixed"""
+    ks = []
+    for d in a["decls"]:
+        if d["kind"] == "attribute":
+            ks.append("A:" + str(d["use"]) + ("+d" if d["default"] is not None else "") + ("+f" if d["fixed"] is not None else "") + (":untyped" if d["type"] is None else ""))
+        else:
+            ks.append("E:" + _occ_class(d["min"], d["max"]) + ("+d" if d["default"] is not None else "") + ("+f" if d["fixed"] is not None else "") + (":untyped" if d["type"] is None else ""))
+    return sorted(ks, key=lambda k: (-len(k), k))[0]
+
+
+def classify_sanitize(a, out):
+    ks = set()
+    for g in a["attrs"]:
+        lst = g["max"] > 1
+        if not g["is_attribute"] and g["default"] is None and g["any_obj"] and not lst:
+            ks.add("reset-required")
+        elif g["default"] is not None and (g.get("xsi_type") or lst or (not g["is_attribute"] and g["min"] == 0)):
+            ks.add("reset-default")
+        else:
+            ks.add("keep")
+    return "+".join(sorted(ks))
+
+
+def classify_override(a, out):
+    c, p = a["child"], a["parent"]
+    cl, pl = c["max"] > 1, p["max"] > 1
+    branch = "widen-parent" if cl and not pl and p["max"] != 0 else "widen-child" if not cl and c["max"] != 0 and pl else "same"
+    kept = "kept" if isinstance(out, dict) and out.get("ok", {}).get("child") else "removed"
+    return f"{branch}/{kept}"
+
+
+def classify_restrict(a, out):
+    base = {o["name"] for o in a["base"]}
+    own = [o["name"] for o in a["own"]]
+    return f"base={len(base)}/own={len(own)}/{'new-name' if any(n not in base for n in own) else 'subset'}/{'omits' if base - set(own) else 'all'}" + ("/unmodelled" if isinstance(out, dict) and "unmodelled" in out else "")
+
+
+def classify_subst(a, out):
+    heads = {h for _, h in a["subs"]}
+    chain = any(h in {m for m, _ in a["subs"]} for h in heads)
+    return f"members={min(len(a['subs']), 4)}/{'transitive' if chain else 'flat'}/refs={min(len(a['refs']), 3)}"
+
+
+# ------------------------------------------------------------------ compound fields (Gen/Compound.lean)
+def gen_compound(rng, tier):
+    for p in particles(rng, n_cases(tier, 250, 3000), dup_share=0.4):
+        try:
+            sites = G.real_stage(G.real_xsd_sites(G.particle_xsd(p)), "all")
+        except Exception:  # noqa: BLE001
+            continue
+        # sequence ids as ResetAttributeSequences leaves them is not modelled: keep the raw ones (renumbered)
+        yield {"sites": G.renumber(sites)}
+
+
+def impl_compound(a):
+    try:
+        return ok(G.real_compound(a["sites"]))
+    except Exception as e:  # noqa: BLE001
+        return err("LEAK:" + type(e).__name__)
+
+
+def classify_compound(a, out):
+    ss = a["sites"]
+    groups = {}
+    for s_ in ss:
+        if s_["choice"]:
+            groups.setdefault(s_["choice"], []).append(s_)
+    big = [g for g in groups.values() if len(g) > 1]
+    eff = any(c < 0 for c in groups)
+    deep = max((len(s_["path"]) for g in big for s_ in g), default=0)
+    seqs = any(len({s_["sequence"] for s_ in g}) == 1 and g[0]["sequence"] for g in big)
+    return f"groups={min(len(big), 3)}/{'effective' if eff else 'real'}/pathlen={min(deep, 4)}/{'one-sequence' if seqs else 'mixed-sequence'}"
+
+
 CORRS = [
-    Corr("gen.xsd_sites", gen_sites, impl_sites, canon=canon_sites, describe="SchemaParser+SchemaMapper element sites and paths vs model"),
-    Corr("gen.calc_paths", stage_gen("calc"), stage_impl("calc"), describe="CalculateAttributePaths.process vs model"),
-    Corr("gen.effective", stage_gen("effective"), stage_impl("effective"), describe="UpdateAttributesEffectiveChoice.process vs model"),
-    Corr("gen.merge", stage_gen("merge"), stage_impl("merge"), describe="MergeAttributes.process vs model"),
-    Corr("gen.occurs", gen_occurs, stage_impl("all"), describe="the three handlers in container order vs model"),
+    Corr("gen.xsd_sites", gen_sites, impl_sites, canon=canon_sites, classify=classify_particle, describe="SchemaParser+SchemaMapper element sites and paths vs model"),
+    Corr("gen.calc_paths", stage_gen("calc"), stage_impl("calc"), classify=classify_sites, describe="CalculateAttributePaths.process vs model"),
+    Corr("gen.effective", stage_gen("effective"), stage_impl("effective"), classify=classify_sites, describe="UpdateAttributesEffectiveChoice.process vs model"),
+    Corr("gen.merge", stage_gen("merge"), stage_impl("merge"), classify=classify_sites, describe="MergeAttributes.process vs model"),
+    Corr("gen.occurs", gen_occurs, stage_impl("all"), classify=classify_sites, describe="the three handlers in container order vs model"),
     Corr("gen.xsd_occurs", gen_fields, impl_fields, canon=canon_fields,
-         describe="whole real pipeline + stand-in renderer: list-ness / requiredness of generated fields vs model"),
+         classify=classify_particle, describe="whole real pipeline + stand-in renderer: list-ness / requiredness of generated fields vs model"),
     Corr("gen.grp_sites", gen_gsites, impl_gsites, canon=canon_gsites,
          nontrivial=lambda a, o: "ref" in json.dumps(a["types"]) or "all" in json.dumps(a),
-         describe="named groups / xs:all: SchemaParser + SchemaMapper + ClassContainer UNGROUP step (FlattenAttributeGroups, copy_group_attributes) -> attrs and paths of every class vs model"),
+         classify=classify_gschema, describe="named groups / xs:all: SchemaParser + SchemaMapper + ClassContainer UNGROUP step (FlattenAttributeGroups, copy_group_attributes) -> attrs and paths of every class vs model"),
     Corr("gen.grp_calc", gen_gcalc, impl_gcalc, canon=canon_gsites,
-         describe="one CalculateAttributePaths handler over all the classes of a schema (paths with shared group ids) vs model"),
+         classify=classify_gclasses, describe="one CalculateAttributePaths handler over all the classes of a schema (paths with shared group ids) vs model"),
     Corr("gen.grp_occurs", gen_gsites, lambda a: impl_gsites(a, upto="flatten"), canon=canon_gsites,
-         describe="named groups / xs:all: real container through the FLATTEN step vs model (UNGROUP + the three handlers)"),
+         classify=classify_gschema, describe="named groups / xs:all: real container through the FLATTEN step vs model (UNGROUP + the three handlers)"),
     Corr("gen.grp_fields", gen_gfields, impl_gfields, canon=canon_gfields,
-         describe="named groups / xs:all: whole real pipeline + stand-in renderer: list-ness / requiredness of the fields of every class vs model"),
+         classify=classify_gschema, describe="named groups / xs:all: whole real pipeline + stand-in renderer: list-ness / requiredness of the fields of every class vs model"),
     Corr("gen.attr_map", gen_attr_decls, impl_attr_map,
-         describe="use/default/fixed: SchemaParser + SchemaMapper.build_class_attribute (+ CalculateAttributePaths) on xs:attribute / xs:element declarations vs model"),
+         classify=classify_decls, describe="use/default/fixed: SchemaParser + SchemaMapper.build_class_attribute (+ CalculateAttributePaths) on xs:attribute / xs:element declarations vs model"),
     Corr("gen.attr_sanitize", gen_attr_sanitize, impl_attr_sanitize,
-         describe="SanitizeAttributesDefaultValue.process_attribute on constructed attrs vs model"),
+         classify=classify_sanitize, describe="SanitizeAttributesDefaultValue.process_attribute on constructed attrs vs model"),
     Corr("gen.attr_fields", gen_attr_fields, impl_attr_fields,
-         describe="use/default/fixed: whole real pipeline + stand-in renderer: presence, init and default of the dataclass field of every declaration vs model"),
+         classify=classify_decls, describe="use/default/fixed: whole real pipeline + stand-in renderer: presence, init and default of the dataclass field of every declaration vs model"),
     Corr("gen.override", gen_override, impl_override,
-         describe="ValidateAttributesOverrides.validate_override on constructed child/parent attrs vs model"),
+         classify=classify_override, describe="ValidateAttributesOverrides.validate_override on constructed child/parent attrs vs model"),
     Corr("gen.restrict_attrs", gen_restrict, impl_restrict_attrs,
-         describe="ValidateAttributesOverrides.process on a constructed class with a restriction base (validate_attrs + prohibit_parent_attrs) vs model"),
+         classify=classify_restrict, describe="ValidateAttributesOverrides.process on a constructed class with a restriction base (validate_attrs + prohibit_parent_attrs) vs model"),
     Corr("gen.restrict_fields", gen_restrict_fields, impl_restrict_fields, compare=lambda m, i, a: "unmodelled" in i or m == i,
-         describe="complexContent restriction: whole real pipeline + stand-in renderer, the dataclass fields of base and derived class vs model"),
+         classify=classify_restrict, describe="complexContent restriction: whole real pipeline + stand-in renderer, the dataclass fields of base and derived class vs model"),
     Corr("gen.ext_fields", gen_ext, impl_ext_fields, canon=canon_ext_fields, compare=lambda m, i, a: "unmodelled" in i or m == i,
-         describe="complexContent extension: whole real pipeline + stand-in renderer, list-ness / requiredness of inherited + own fields of the derived class vs model"),
+         classify=lambda a, o: classify_particle({'particle': a['base']}, o), describe="complexContent extension: whole real pipeline + stand-in renderer, list-ness / requiredness of inherited + own fields of the derived class vs model"),
     Corr("gen.subst_sites", gen_subst_sites, impl_subst_sites, canon=canon_by_name,
          nontrivial=lambda a, o: bool(a["subs"]),
-         describe="AddAttributeSubstitutions.process on a constructed class in a real container (global elements with substitutionGroup) vs model"),
+         classify=classify_subst, describe="AddAttributeSubstitutions.process on a constructed class in a real container (global elements with substitutionGroup) vs model"),
     Corr("gen.subst_fields", gen_subst_fields, impl_subst_fields, canon=canon_fields,
          nontrivial=lambda a, o: bool(a["subs"]),
-         describe="substitution groups: whole real pipeline + stand-in renderer: list-ness / requiredness of the fields (head and members) vs model"),
+         classify=classify_subst, describe="substitution groups: whole real pipeline + stand-in renderer: list-ness / requiredness of the fields (head and members) vs model"),
+    Corr("gen.ns_attrs", gen_ns, impl_ns_attrs, classify=classify_ns,
+         describe="namespaces and forms: SchemaParser (forms, chameleon target namespace) + SchemaMapper.element_namespace for the class and every declaration vs model"),
+    Corr("gen.ns_meta", gen_ns_meta, impl_ns_meta,
+         describe="Filters.field_metadata namespace entry + XmlMetaBuilder.resolve_namespaces on constructed attrs vs model"),
+    Corr("gen.ns_fields", gen_ns_fields, impl_ns_fields, classify=classify_ns,
+         describe="namespaces and forms: whole real pipeline (imports, chameleon include) + stand-in renderer + XmlContext: namespace of the qualified name of the class and of every field vs model"),
+    Corr("gen.compound", gen_compound, impl_compound, classify=classify_compound,
+         nontrivial=lambda a, o: any("compound" in x for x in (o.get("ok") or [])),
+         describe="CreateCompoundFields.process (compound fields enabled: group_fields, update_counters, sum_counters, sequence) on the attrs the real FLATTEN handlers leave vs model"),
     Corr("c02.e2e", gen_e2e, impl_e2e, spec=spec_e2e,
          describe="spec-level: schema (typed elements, unions) -> real pipeline under default / compound-field / output-only options -> strict parse of valid documents -> re-serialise; expected: faithful"),
 ]
@@ -607,10 +821,10 @@ def multi_site(p, n):
     return G.particle_names(p).count(n) > 1
 
 
-def order_promised(p, top=True, heads=()):
+def order_promised(p, top=True):
     """every repeating group is a choice of single elements, or the top-level sequence of single elements.
-    `heads`: element references whose element heads a substitution group with members: such a reference is
-    an (implicit) choice between the head and the members, not a single element"""
+    (A reference to an element that heads a substitution group is a single element particle of the schema:
+    the clause applies to it.)"""
     if "elem" in p:
         return True
     if "choice" in p:
@@ -620,11 +834,39 @@ def order_promised(p, top=True, heads=()):
     if mx > 1:
         # "single elements": each member occurs exactly once per iteration (with optional or
         # repeating members the rolling interleave of sequence fields cannot tell iterations apart)
-        return top and all("elem" in k and k["elem"][1:] == [1, 1] and k["elem"][0] not in heads for k in kids)
-    return all(order_promised(k, False, heads) for k in kids)
+        return top and all("elem" in k and k["elem"][1:] == [1, 1] for k in kids)
+    return all(order_promised(k, False) for k in kids)
 
 
-def oracle_docs(a):
+def has_choice(p):
+    if "elem" in p:
+        return False
+    if "choice" in p:
+        return True
+    return any(has_choice(k) for k in p["seq"][2])
+
+
+def order_clause(p, opts):
+    """does the property promise the element order for this content model under these options: choices of
+    single elements need compound fields; a content model without any choice (its only repeating group is the
+    top-level sequence of single elements) is promised under every configuration"""
+    return order_promised(p) and (bool(opts.get("compound_fields")) or not has_choice(p))
+
+
+def repeating_heads(a):
+    """element references with substitutes that a valid document may use more than once (the reference
+    repeats, or sits in a repeating group)"""
+    heads = {h for _, h in a.get("subs", ()) if h in a.get("refs", ())}
+    out = set()
+    for h in heads:
+        tm = true_max(a["particle"], h)
+        if tm is None or tm > 1:
+            out.add(h)
+    return out
+
+
+def _oracle_docs_failures(a):
+    """yields every failure, pass by pass (a failure ends its pass)"""
     from lxml import etree
     from xsdata.formats.dataclass.context import XmlContext
     from xsdata.formats.dataclass.parsers import XmlParser
@@ -636,17 +878,32 @@ def oracle_docs(a):
     try:
         schema = etree.XMLSchema(etree.fromstring(xsd.encode()))
     except etree.XMLSchemaParseError:
-        return None  # not a valid schema (e.g. non-deterministic content model): outside the property
-    passes = [({}, False)]
-    heads = {h for _, h in a.get("subs", ()) if h in a.get("refs", ())}
+        return  # not a valid schema (e.g. non-deterministic content model): outside the property
+    passes = [({}, order_clause(p, {}))]
     for extra in a.get("configs", []):
-        passes.append((extra, bool(extra.get("compound_fields")) and order_promised(p, heads=heads)))
-    reference = None
+        passes.append((extra, order_clause(p, extra)))
+    state = {}
     for opts, ordered in passes:
         g = CG.run_pipeline({"s.xsd": xsd}, **opts)
         try:
+            yield from _one_pass(g, opts, ordered, a, p, words, types, schema, state)
+        finally:
+            g.close()
+
+
+def _one_pass(g, opts, ordered, a, p, words, types, schema, state):
+    from lxml import etree
+    from xsdata.formats.dataclass.context import XmlContext
+    from xsdata.formats.dataclass.parsers import XmlParser
+    from xsdata.formats.dataclass.parsers.config import ParserConfig
+    from xsdata.formats.dataclass.serializers import XmlSerializer
+
+    reference = state.get("reference")
+    if True:
+        if True:
             if g.error is not None:
-                return f"generation failed ({opts}): {type(g.error).__name__}: {g.error}"
+                yield f"generation failed ({opts}): {type(g.error).__name__}: {g.error}"
+                return
             R = g.classes()["R"]
             ctx = XmlContext()
             parser = XmlParser(context=ctx, config=ParserConfig(fail_on_unknown_properties=True, fail_on_unknown_attributes=True, fail_on_converter_warnings=True))
@@ -658,26 +915,40 @@ def oracle_docs(a):
                 try:
                     obj = parser.from_string(doc, R)
                 except Exception as e:  # noqa: BLE001
-                    return f"schema-valid document {doc} rejected ({opts}): {type(e).__name__}: {e}"
+                    yield f"schema-valid document {doc} rejected ({opts}): {type(e).__name__}: {e}"
+                    continue
                 out = XmlSerializer(context=ctx).render(obj)
                 back = etree.fromstring(out.encode())
                 got = [(etree.QName(c).localname, c.text) for c in back]
                 exp = list(zip(w, G.word_values(w, types)))
                 if sorted(got) != sorted(exp):
-                    return f"document {doc} re-serialised with other content ({opts}): {out}"
+                    yield f"document {doc} re-serialised with other content ({opts}): {out}"
+                    continue
                 if ordered:
                     if got != exp:
-                        return f"document {doc} re-serialised in another element order ({opts}): {out}"
+                        yield f"document {doc} re-serialised in another element order ({opts}): {out}"
+                        continue
                     if not schema.validate(back):
-                        return f"document {doc} re-serialised as {out}, which is not schema-valid ({opts})"
+                        yield f"document {doc} re-serialised as {out}, which is not schema-valid ({opts})"
+                        continue
                 outs.append(sorted(got))
             if reference is None:
-                reference = outs
+                state["reference"] = reference = outs
             elif outs != reference and not opts.get("compound_fields"):
-                return f"output-only options {opts} change the documents produced"
-        finally:
-            g.close()
-    return None
+                yield f"output-only options {opts} change the documents produced"
+
+
+def oracle_docs(a):
+    """the first failure that no listed finding covers; else the first failure; else None. (A covered failure of
+    one configuration must not hide an uncovered failure of another.)"""
+    first = None
+    cov = covered_subst if "subs" in a else covered_docs
+    for msg in _oracle_docs_failures(a):
+        if first is None:
+            first = msg
+        if not cov(a, msg):
+            return msg
+    return first
 
 
 OUTPUT_ONLY = [
@@ -838,7 +1109,7 @@ def covered_gschema(a, msg):
     return None
 
 
-def oracle_attr_docs(a):
+def _oracle_attr_docs_failures(a):
     """use/default/fixed: whatever a schema-valid element carries for an attribute declaration is accepted by
     the strict parser and read as the schema-normalized value (the value given, else default/fixed, else nothing);
     elements with default/fixed and every occurrence range keep their children through the round trip"""
@@ -853,25 +1124,27 @@ def oracle_attr_docs(a):
     try:
         schema = etree.XMLSchema(etree.fromstring(xsd.encode()))
     except etree.XMLSchemaParseError:
-        return None
+        return
     g = CG.run_pipeline({"s.xsd": xsd}, **a.get("config", {}))
     try:
         if g.error is not None:
-            return f"generation failed: {type(g.error).__name__}: {g.error}"
+            yield f"generation failed: {type(g.error).__name__}: {g.error}"
+            return
         R = g.classes()["R"]
         ctx = XmlContext()
         parser = XmlParser(context=ctx, config=ParserConfig(fail_on_unknown_properties=True, fail_on_unknown_attributes=True, fail_on_converter_warnings=True))
         fields = {f.metadata.get("name", f.name): f.name for f in dataclasses.fields(R)}
         for doc_spec in a["docs"]:
             attrs = "".join(f' d{i}="{G._xml_attr(v)}"' for i, v in doc_spec["attrs"])
-            kids = "".join(f"<t:d{i}>{v}</t:d{i}>" for i, vals in doc_spec["elems"] for v in vals)
-            doc = f'<t:r xmlns:t="urn:t"{attrs}>{kids}</t:r>'
+            kids = "".join((f'<t:d{i} xsi:nil="true"/>' if v is None else f"<t:d{i}>{v}</t:d{i}>") for i, vals in doc_spec["elems"] for v in vals)
+            doc = f'<t:r xmlns:t="urn:t" xmlns:xsi="{XSI}"{attrs}>{kids}</t:r>'
             if not schema.validate(etree.fromstring(doc.encode())):
                 continue
             try:
                 obj = parser.from_string(doc, R)
             except Exception as e:  # noqa: BLE001
-                return f"schema-valid document {doc} rejected: {type(e).__name__}: {e}"
+                yield f"schema-valid document {doc} rejected: {type(e).__name__}: {e}"
+                continue
             given = dict(doc_spec["attrs"])
             for i, d in enumerate(decls):
                 if d["kind"] != "attribute" or d["use"] == "prohibited":
@@ -881,13 +1154,15 @@ def oracle_attr_docs(a):
                     want = d["default"] if d["default"] is not None else d["fixed"]
                 got = getattr(obj, fields[f"d{i}"]) if f"d{i}" in fields else None
                 if got != want:
-                    return f"document {doc}: attribute d{i} ({d}) read as {got!r}, schema-normalized value {want!r}"
+                    yield f"document {doc}: attribute d{i} ({d}) read as {got!r}, schema-normalized value {want!r}"
+                    continue
             out = XmlSerializer(context=ctx).render(obj)
             back = etree.fromstring(out.encode())
             exp_kids = [(f"d{i}", v) for i, vals in doc_spec["elems"] for v in vals]
-            got_kids = [(etree.QName(c).localname, c.text or "") for c in back]
+            got_kids = [(etree.QName(c).localname, None if c.get("{%s}nil" % XSI) == "true" else (c.text or "")) for c in back]
             if got_kids != exp_kids:
-                return f"document {doc} re-serialised with other children: {out}"
+                yield f"document {doc} re-serialised with other children: {out}"
+                continue
 
             def norm(attrib):
                 m = {k: v for k, v in attrib.items()}
@@ -899,11 +1174,44 @@ def oracle_attr_docs(a):
                 return m
 
             if norm(back.attrib) != norm({f"d{i}": v for i, v in doc_spec["attrs"]}):
-                return f"document {doc} re-serialised with other attributes (after defaults): {out}"
+                yield f"document {doc} re-serialised with other attributes (after defaults): {out}"
+                continue
             if not schema.validate(back):
-                return f"document {doc} re-serialised as {out}, which is not schema-valid"
+                yield f"document {doc} re-serialised as {out}, which is not schema-valid"
+                continue
     finally:
         g.close()
+    return
+
+
+XSI = "http://www.w3.org/2001/XMLSchema-instance"
+
+
+
+def oracle_attr_docs(a):
+    """the first failure no listed finding covers, else the first failure, else None"""
+    first = None
+    for msg in _oracle_attr_docs_failures(a):
+        if first is None:
+            first = msg
+        if not covered_attr_docs(a, msg):
+            return msg
+    return first
+
+def covered_attr_docs(a, msg):
+    """known findings about xsi:nil (both None in the object): an absent optional nillable element is written as
+    nil; an empty nillable element is read as nil"""
+    if "other children" not in msg:
+        return None
+    nillable = [i for i, d in enumerate(a["decls"]) if d["kind"] == "element" and d.get("nillable")]
+    if not nillable:
+        return None
+    for ds in a["docs"]:
+        vals = dict(ds["elems"])
+        if any(a["decls"][i]["min"] == 0 and a["decls"][i]["max"] == 1 and not vals.get(i) for i in nillable):
+            return "C02-nillable-absent-rendered-nil"
+        if any("" in (vals.get(i) or []) for i in nillable):
+            return "C02-nillable-empty-read-as-nil"
     return None
 
 
@@ -915,6 +1223,8 @@ def gen_attr_docs(rng, tier):
         for _ in range(rng.randint(1, 7)):
             d = G.gen_decl(rng)
             if G.decl_valid(d) and not (d["kind"] == "element" and d["type"] is None):
+                if d["kind"] == "element" and d["fixed"] is None and d["default"] is None and rng.random() < 0.3:
+                    d["nillable"] = True
                 decls.append(d)
         if not decls:
             continue
@@ -931,7 +1241,10 @@ def gen_attr_docs(rng, tier):
                     hi = d["min"] + 2 if d["max"] == MAXSIZE else d["max"]
                     k = rng.randint(d["min"], max(d["min"], hi))
                     val = d["fixed"] if d["fixed"] is not None else None
-                    elems.append([i, [val if val is not None else f"e{j}" for j in range(k)]])
+                    vals = [val if val is not None else f"e{j}" for j in range(k)]
+                    if d.get("nillable"):
+                        vals = [None if rng.random() < 0.4 else ("" if rng.random() < 0.15 else v) for v in vals]
+                    elems.append([i, vals])
             docs.append({"attrs": attrs, "elems": elems})
         yield {"decls": decls, "docs": docs, "config": {"compound_fields": True} if rng.random() < 0.2 else {}}
 
@@ -1013,10 +1326,21 @@ def gen_derived(rng, tier):
 def gen_subst_docs(rng, tier):
     """element references whose elements head substitution groups: in the documents every occurrence of a
     reference is the head or a (transitive) member of its group"""
+    # the shapes the order clause speaks of, with compound fields: a repeating top-level sequence of single
+    # elements one of which has substitutes; a repeating reference with substitutes
+    yield {**SUBST_ORDER_WITNESS, "words": [["m1", "c", "d", "c"], ["d", "c"], []], "configs": [{"compound_fields": True}]}
+    yield {"particle": {"seq": [1, 1, [{"elem": ["x", 1, 1]}, {"elem": ["d", 0, MAXSIZE]}]]}, "refs": ["d"], "subs": [["m1", "d"], ["m2", "m1"]],
+           "words": [["x", "m2", "d", "m1", "d"], ["x"]], "types": None, "configs": [{"compound_fields": True}]}
     n = 0
     while n < n_cases(tier, 60, 100000):
         n += 1
         a = gen_subst_case(rng)
+        if a is not None and n % 3 == 0:
+            # a repeating top-level sequence of references, each exactly once per iteration
+            names = G.particle_names(a["particle"])[:3]
+            a["particle"] = {"seq": [rng.choice([0, 1]), MAXSIZE, [{"elem": [x, 1, 1]} for x in dict.fromkeys(names)]]}
+            a["refs"] = list(dict.fromkeys(names))
+            a["subs"] = [[m, h] for m, h in a["subs"] if h in a["refs"] or h in {x for x, _ in a["subs"]}] or [["m1", a["refs"][0]]]
         if a is None or not a["subs"]:
             continue
         heads = {}
@@ -1033,12 +1357,226 @@ def gen_subst_docs(rng, tier):
         for _ in range(5):
             w = G.sample_word(rng, a["particle"])
             words.append([rng.choice(closure(x)) if x in a["refs"] else x for x in w])
-        cfgs = [{"compound_fields": True}] if rng.random() < 0.3 else []
+        cfgs = [{"compound_fields": True}] if rng.random() < 0.6 else []
         yield {"particle": a["particle"], "refs": a["refs"], "subs": a["subs"], "words": words, "types": None, "configs": cfgs}
 
 
 def covered_subst(a, msg):
-    return None  # element names are distinct
+    """known finding: without compound fields the head of a substitution group and its substitutes are separate
+    list fields; when the reference can occur more than once their interleaving (with each other and with the
+    other members of a repeating sequence) is lost (element names are distinct here, so nothing else is excused;
+    with compound fields the order is kept since fix c02c-01)"""
+    if ("another element order" in msg or "not schema-valid" in msg) and "compound_fields" not in msg and repeating_heads(a):
+        return "C02-substitution-order-without-compound"
+    return None
+
+
+def _oracle_ns_docs_failures(a):
+    """namespaces and forms: an instance that carries every declared child and attribute under the name the schema
+    gives it (own reference computation, document validated by lxml) parses under strict settings and comes back
+    with the same expanded names"""
+    import tempfile
+
+    from lxml import etree
+    from xsdata.formats.dataclass.context import XmlContext
+    from xsdata.formats.dataclass.parsers import XmlParser
+    from xsdata.formats.dataclass.parsers.config import ParserConfig
+    from xsdata.formats.dataclass.serializers import XmlSerializer
+
+    ctx, decls = a["ctx"], a["decls"]
+    srcs = G.ns_sources(ctx, decls)
+    entry = G.ns_entry(ctx)
+    with tempfile.TemporaryDirectory(prefix="vpns_") as d:
+        for k, v in srcs.items():
+            with open(os.path.join(d, k), "w") as f:
+                f.write(v)
+        try:
+            schema = etree.XMLSchema(etree.parse(os.path.join(d, entry[0])))
+        except etree.XMLSchemaParseError:
+            return
+    g = CG.run_pipeline(srcs, entry=entry, **a.get("config", {}))
+    try:
+        if g.error is not None:
+            yield f"generation failed: {type(g.error).__name__}: {g.error}"
+            return
+        R = g.classes()["R"]
+        ctxt = XmlContext()
+        parser = XmlParser(context=ctxt, config=ParserConfig(fail_on_unknown_properties=True, fail_on_unknown_attributes=True, fail_on_converter_warnings=True))
+        for present in a["present"]:
+            doc = G.ns_doc(ctx, decls, set(present))
+            src = etree.fromstring(doc.encode())
+            if not schema.validate(src):
+                continue
+            try:
+                obj = parser.from_string(doc, R)
+            except Exception as e:  # noqa: BLE001
+                yield f"schema-valid document {doc} rejected: {type(e).__name__}: {e}"
+                continue
+            out = XmlSerializer(context=ctxt).render(obj)
+            back = etree.fromstring(out.encode())
+            if back.tag != src.tag or [(c.tag, c.text) for c in back] != [(c.tag, c.text) for c in src] or dict(back.attrib) != dict(src.attrib):
+                yield f"document {doc} re-serialised under other names: {out}"
+                continue
+            if not schema.validate(back):
+                yield f"document {doc} re-serialised as {out}, which is not schema-valid"
+                continue
+    finally:
+        g.close()
+    return
+
+
+
+def oracle_ns_docs(a):
+    """the first failure no listed finding covers, else the first failure, else None"""
+    first = None
+    for msg in _oracle_ns_docs_failures(a):
+        if first is None:
+            first = msg
+        if not covered_ns(a, msg):
+            return msg
+    return first
+
+def gen_ns_docs(rng, tier):
+    n = 0
+    for a in gen_ns(rng, "thorough"):
+        n += 1
+        if n > n_cases(tier, 200, 100000):
+            break
+        k = len(a["decls"])
+        present = [list(range(k)), [i for i in range(k) if rng.random() < 0.5], []]
+        yield {**a, "present": present, "config": {"compound_fields": True} if rng.random() < 0.2 else {}}
+
+
+def ns_heuristic_wrong(a):
+    """an unprefixed reference with no default namespace in scope, where "the target namespace has no binding
+    in this document" and "this document is a chameleon include" do not coincide (the model's `refHeuristicOk`
+    is false): element_namespace answers the target namespace for a document with its own, unbound, target
+    namespace, and no namespace for a chameleon include that binds a prefix to the includer's namespace"""
+    c = a["ctx"]
+    bound = c["tns"] in c["prefixes"].values()
+    return bool(c["tns"]) and not c["default"] and bool(c.get("chameleon")) == bound and any(
+        d["kind"] == "ref" and d["prefix"] is None for d in a["decls"])
+
+
+def covered_ns(a, msg):
+    if ns_heuristic_wrong(a) and ("Unknown property" in msg or "Unknown attribute" in msg):
+        return "C02-unprefixed-ref-unbound-target-namespace"
+    return None
+
+
+# ---- wildcards, mixed content, recursion: schema templates with generated documents
+def _canon(e):
+    return (e.tag, sorted(e.attrib.items()), e.text or "", [_canon(c) for c in e], e.tail or "")
+
+
+def oracle_misc(a):
+    """xs:any / xs:anyAttribute with every namespace constraint and processContents, mixed="true", recursive and
+    nested anonymous types: every schema-valid document parses under strict settings and comes back with the
+    same infoset (prefixes aside)"""
+    from lxml import etree
+    from xsdata.formats.dataclass.context import XmlContext
+    from xsdata.formats.dataclass.parsers import XmlParser
+    from xsdata.formats.dataclass.parsers.config import ParserConfig
+    from xsdata.formats.dataclass.serializers import XmlSerializer
+
+    xsd = a["xsd"]
+    try:
+        schema = etree.XMLSchema(etree.fromstring(xsd.encode()))
+    except etree.XMLSchemaParseError:
+        return None
+    g = CG.run_pipeline({"s.xsd": xsd}, **a.get("config", {}))
+    try:
+        if g.error is not None:
+            return f"generation failed: {type(g.error).__name__}: {g.error}"
+        R = g.classes()["R"]
+        ctx = XmlContext()
+        parser = XmlParser(context=ctx, config=ParserConfig(fail_on_unknown_properties=True, fail_on_unknown_attributes=True, fail_on_converter_warnings=True))
+        for doc in a["docs"]:
+            src = etree.fromstring(doc.encode())
+            if not schema.validate(src):
+                continue
+            try:
+                obj = parser.from_string(doc, R)
+            except Exception as e:  # noqa: BLE001
+                return f"schema-valid document {doc} rejected: {type(e).__name__}: {e}"
+            out = XmlSerializer(context=ctx).render(obj)
+            back = etree.fromstring(out.encode())
+            if _canon(back) != _canon(src):
+                return f"document {doc} re-serialised with another infoset: {out}"
+            if not schema.validate(back):
+                return f"document {doc} re-serialised as {out}, which is not schema-valid"
+    finally:
+        g.close()
+    return None
+
+
+def _schema(body, extra=""):
+    return ('<?xml version="1.0"?>\n<xs:schema xmlns:xs="http://www.w3.org/2001/XMLSchema" targetNamespace="urn:t" xmlns="urn:t" elementFormDefault="qualified">\n'
+            f'{extra} <xs:element name="r">{body}</xs:element>\n <xs:element name="g" type="xs:string"/>\n</xs:schema>\n')
+
+
+def gen_misc(rng, tier):
+    NSD = 'xmlns:t="urn:t" xmlns:o="urn:o" xmlns:p="urn:p"'
+    n = 0
+    while n < n_cases(tier, 60, 100000):
+        n += 1
+        kind = rng.choice(["any", "any", "anyattr", "mixed", "recursive", "nested"])
+        cfg = {"compound_fields": True} if rng.random() < 0.25 else {}
+        if kind == "any":
+            ns = rng.choice(["##any", "##other", "##local", "##targetNamespace", "urn:o urn:p", "urn:o", "##targetNamespace ##local"])
+            pc = rng.choice(["lax", "skip", "strict"])
+            mn, mx = rng.choice([(0, "unbounded"), (1, 1), (0, 1), (1, "unbounded")])
+            before = rng.random() < 0.7
+            body = ('<xs:complexType><xs:sequence>' + ('<xs:element name="a" type="xs:string"/>' if before else "")
+                    + f'<xs:any namespace="{ns}" processContents="{pc}" minOccurs="{mn}" maxOccurs="{mx}"/></xs:sequence></xs:complexType>')
+            pool = ['<o:x>1</o:x>', '<o:y k="2">t<o:z/>u</o:y>', '<loc>1</loc>', '<t:g>q</t:g>', '<p:x/>', '<p:w><p:v>deep</p:v>tail</p:w>']
+            docs = []
+            for _ in range(5):
+                kids = [rng.choice(pool) for _ in range(rng.randint(0, 3))]
+                docs.append(f'<t:r {NSD}>' + ("<t:a>v</t:a>" if before else "") + "".join(kids) + "</t:r>")
+            yield {"xsd": _schema(body), "docs": docs, "config": cfg, "kind": f"any/{ns}/{pc}"}
+        elif kind == "anyattr":
+            ns = rng.choice(["##any", "##other", "##local", "urn:o"])
+            body = f'<xs:complexType><xs:sequence><xs:element name="a" type="xs:string"/></xs:sequence><xs:attribute name="k" type="xs:string"/><xs:anyAttribute namespace="{ns}" processContents="lax"/></xs:complexType>'
+            pool = ['k="1"', 'o:m="2"', 'o:n="3"', 'm="4"', 'p:q="5"']
+            docs = [f'<t:r {NSD} ' + " ".join(rng.sample(pool, rng.randint(0, 3))) + "><t:a>v</t:a></t:r>" for _ in range(5)]
+            yield {"xsd": _schema(body), "docs": docs, "config": cfg, "kind": f"anyattr/{ns}"}
+        elif kind == "mixed":
+            body = '<xs:complexType mixed="true"><xs:sequence><xs:element name="a" type="xs:string" minOccurs="0" maxOccurs="unbounded"/><xs:element name="b" type="xs:int" minOccurs="0"/></xs:sequence></xs:complexType>'
+            docs = []
+            for _ in range(5):
+                parts = [rng.choice(["x", "y z", ""])]
+                for _ in range(rng.randint(0, 3)):
+                    parts += ["<t:a>v</t:a>", rng.choice(["t", "", "u v"])]
+                if rng.random() < 0.5:
+                    parts += ["<t:b>3</t:b>", rng.choice(["w", ""])]
+                docs.append(f'<t:r {NSD}>' + "".join(parts) + "</t:r>")
+            yield {"xsd": _schema(body), "docs": docs, "config": cfg, "kind": "mixed"}
+        elif kind == "recursive":
+            extra = ' <xs:complexType name="T"><xs:sequence><xs:element name="v" type="xs:string"/><xs:element name="c" type="T" minOccurs="0" maxOccurs="unbounded"/></xs:sequence><xs:attribute name="id" type="xs:string"/></xs:complexType>\n'
+            xsd = _schema("", extra).replace('<xs:element name="r"></xs:element>', '<xs:element name="r" type="T"/>')
+
+            def node(tag, depth):
+                kids = "".join(node("t:c", depth + 1) for _ in range(rng.randint(0, 2 if depth < 3 else 0)))
+                ida = f' id="i{depth}"' if rng.random() < 0.5 else ""
+                return f"<{tag}{ida}><t:v>v{depth}</t:v>{kids}</{tag}>"
+
+            docs = [node("t:r", 0).replace("<t:r", f"<t:r {NSD}", 1) for _ in range(5)]
+            yield {"xsd": xsd, "docs": docs, "config": cfg, "kind": "recursive"}
+        else:
+            body = ('<xs:complexType><xs:sequence><xs:element name="a" maxOccurs="unbounded"><xs:complexType><xs:sequence>'
+                    '<xs:element name="b" minOccurs="0"><xs:complexType><xs:simpleContent><xs:extension base="xs:int"><xs:attribute name="u" type="xs:string"/></xs:extension></xs:simpleContent></xs:complexType></xs:element>'
+                    '<xs:element name="a" type="xs:string" minOccurs="0"/></xs:sequence><xs:attribute name="k" type="xs:boolean"/></xs:complexType></xs:element></xs:sequence></xs:complexType>')
+            docs = []
+            for _ in range(5):
+                items = []
+                for _ in range(rng.randint(1, 3)):
+                    b = rng.choice(["", '<t:b u="m">7</t:b>', "<t:b>-1</t:b>"])
+                    inner = rng.choice(["", "<t:a>in</t:a>"])
+                    k = rng.choice(["", ' k="true"', ' k="false"'])
+                    items.append(f"<t:a{k}>{b}{inner}</t:a>")
+                docs.append(f'<t:r {NSD}>' + "".join(items) + "</t:r>")
+            yield {"xsd": _schema(body), "docs": docs, "config": cfg, "kind": "nested"}
 
 
 def covered_groups(a, msg):
@@ -1054,6 +1592,9 @@ def covered_docs(a, msg):
             tm = true_max(p, n)
             if (tm is None or tm > 1) and f"}}{n}" in msg or f":{n}" in msg:
                 return "C02-duplicate-name-sites"
+            if "another element order" in msg or "not schema-valid" in msg:
+                # one field per element name: two sites of one name cannot both keep their place
+                return "C02-duplicate-name-sites"
     return None
 
 
@@ -1068,9 +1609,11 @@ ORACLES = [
     Oracle("c02.valid_docs", gen_docs, oracle_docs, covered=covered_docs, from_ops=("gen.xsd_sites", "gen.xsd_occurs"), adapt=adapt_docs),
     Oracle("c02.group_refs", gen_groups, oracle_groups, covered=covered_groups),
     Oracle("c02.gschema_docs", gen_gschema_docs, oracle_gschema, covered=covered_gschema),
-    Oracle("c02.attr_docs", gen_attr_docs, oracle_attr_docs),
+    Oracle("c02.attr_docs", gen_attr_docs, oracle_attr_docs, covered=covered_attr_docs),
     Oracle("c02.derived_docs", gen_derived, oracle_derived),
     Oracle("c02.subst_docs", gen_subst_docs, oracle_docs, covered=covered_subst),
+    Oracle("c02.ns_docs", gen_ns_docs, oracle_ns_docs, covered=covered_ns),
+    Oracle("c02.misc_docs", gen_misc, oracle_misc),
 ]
 
 
@@ -1086,8 +1629,53 @@ def finding_same_choice_sequence():
     return (msg is not None and "rejected" in msg, msg or "the document now parses")
 
 
+SUBST_ORDER_WITNESS = {
+    "particle": {"seq": [0, MAXSIZE, [{"elem": ["d", 1, 1]}, {"elem": ["c", 1, 1]}]]},
+    "refs": ["d", "c"], "subs": [["m1", "d"]], "words": [["m1", "c", "d", "c"]], "types": None, "configs": [],
+}
+
+
+def finding_subst_order():
+    msg = oracle_docs(SUBST_ORDER_WITNESS)
+    still = msg is not None and "another element order" in msg and covered_subst(SUBST_ORDER_WITNESS, msg) is not None
+    return (still, msg or "the document now comes back in the same order")
+
+
+NS_HEURISTIC_WITNESS = {
+    "ctx": {"tns": "urn:t", "chameleon": False, "default": None, "prefixes": {}, "eform": None, "aform": None},
+    "decls": [{"attr": False, "kind": "ref", "prefix": None, "name": "n"}], "present": [[0]],
+}
+
+
+def finding_ns_heuristic():
+    msg = oracle_ns_docs(NS_HEURISTIC_WITNESS)
+    return (msg is not None and "rejected" in msg, msg or "the document now parses")
+
+
+def _nil_witness(vals):
+    return {"decls": [{"kind": "element", "min": 1, "max": 1, "default": None, "fixed": None, "type": "string"},
+                      {"kind": "element", "min": 0, "max": 1, "default": None, "fixed": None, "type": "string", "nillable": True}],
+            "docs": [{"attrs": [], "elems": [[0, ["e0"]], [1, vals]]}]}
+
+
+def finding_nil_absent():
+    a = _nil_witness([])
+    msg = oracle_attr_docs(a)
+    return (msg is not None and covered_attr_docs(a, msg) == "C02-nillable-absent-rendered-nil", msg or "the document now comes back unchanged")
+
+
+def finding_nil_empty():
+    a = _nil_witness([""])
+    msg = oracle_attr_docs(a)
+    return (msg is not None and covered_attr_docs(a, msg) == "C02-nillable-empty-read-as-nil", msg or "the document now comes back unchanged")
+
+
 FINDINGS = {
     "C02-duplicate-name-sites": finding_duplicate_sites,
+    "C02-nillable-absent-rendered-nil": finding_nil_absent,
+    "C02-nillable-empty-read-as-nil": finding_nil_empty,
+    "C02-unprefixed-ref-unbound-target-namespace": finding_ns_heuristic,
+    "C02-substitution-order-without-compound": finding_subst_order,
 }
 
 TRUSTED = [
@@ -1095,15 +1683,25 @@ TRUSTED = [
     "jinja2/ruff are absent: harness/standin_render.py transliterates the templates; everything else in the end-to-end ops is the real pipeline",
     "lxml.etree.XMLSchema (libxml2) is the independent validator of instance documents",
 ]
-ASSUMPTIONS = ["element children are xs:string; attributes, simple types, substitution groups, wildcards, extension are exercised only through other properties"]
+ASSUMPTIONS = [
+    "modelled fragments: occurrence arithmetic (sequence/choice/all/named groups/substitution groups, extension, restriction overrides), use/default/fixed of "
+    "string-typed or untyped declarations, namespaces and forms (one schema document with imports and chameleon include); simple-type derivation, field python "
+    "types, compound-field arithmetic, wildcards, nillable and mixed content are covered by the oracles only",
+]
 LEVEL_TEXT = (
-    "Partial. Lean theorems (Props/C02.lean) about the occurrence arithmetic the property hinges on: for content models whose element "
-    "names occur at one site each, a field the generator makes non-list is never repeated in a valid document and a field it makes "
-    "required is always present (so strict parsing cannot fail on occurrence grounds), for every particle and every word of its "
-    "language; counterexample theorems for repeated names. The model is tied to /repo by correspondence of each handler and of the "
-    "whole pipeline's generated field shapes; documents are checked end to end by the oracle."
+    "Partial. Lean theorems (Props/C02.lean, Props/C02Ns.lean) about the decisions the property hinges on. Occurrences: for content models "
+    "whose field names occur at one site each, over sequences, choices, xs:all, references to named groups (each with its own range), "
+    "substitution groups (whole content models), extension and restriction overrides, a field the generator makes non-list is never repeated "
+    "in a valid document, a field it makes required is always present, and a list field is needed, for every particle and every word of its "
+    "language; the handlers are total. use/default/fixed: every value a valid element carries for an attribute is accepted and read as its "
+    "schema-normalized value; element defaults. Namespaces and forms: the field of every local declaration, reference or global declaration is "
+    "bound to the namespace the schema gives it (form, elementFormDefault/attributeFormDefault, targetNamespace, prefixes, default namespace, "
+    "chameleon include), except where the chameleon heuristic for unprefixed references is wrong (counterexample + finding). Counterexample "
+    "theorems for repeated names. The models are tied to /repo by correspondence of each handler / mapper stage and of the whole pipeline's "
+    "generated fields and bound names; documents are checked end to end by nine oracles."
 )
 LEVEL_NOTE = (
-    "Trusted: Lean kernel; particle language spec; stand-in renderer for the Jinja2 templates; sampling correspondence. Not covered: "
-    "types, attributes, namespaces/forms, substitution groups, wildcards, extension, output options (only via the oracle's default config)."
+    "Trusted: Lean kernel; particle language and attribute-use / namespace specs; stand-in renderer for the Jinja2 templates; sampling "
+    "correspondence. Not modelled (oracles only): simple-type restriction/list/union/enumeration and the python field types, compound-field "
+    "min/max arithmetic, wildcards, nillable, mixed content, recursion, output options."
 )
